@@ -471,6 +471,12 @@ func runSync(cc *run.Case, sc syncScenario, raceOnly bool) (map[string][]int, bo
 
 func c12(ctx *run.Ctx, raceOnly bool) {
 	targets := []string{"memory", "filesystem", "sql"}
+	if !raceOnly {
+		// end to end through cmd/indicator-sync
+		for i := 0; i < ctx.Pick(4, 40); i++ {
+			ctx.Case(fmt.Sprintf("cli/%d", i), c12CLI)
+		}
+	}
 	// --- fault enumeration: ALL subsets F1, F2 for <= 4 assets ---
 	nEnum := ctx.Pick(3, 40)
 	if raceOnly {
